@@ -286,3 +286,85 @@ MANIFEST_TEXT_EXTRA["C12"] = {
     "note": "Trusted additionally: native_decide for 42 finite per-character obligations (listed in the evidence); the decoder families and ncr are hand models tied by the dec / enc correspondences. The theorem is about the reference run of the model; call histories are connected to it by C04 (raw API) and by the correspondence run (NCR wrapper).",
     "technique": "Lean 4 proof (generic decoder-acceptance lemma + induction over the text + complete finite evaluation of every per-character encode/decode pair over the regenerated tables, state-correspondence invariant for ISO-2022-JP) + differential correspondence + real-decoder oracle",
 }
+_C17_LEMMA_MODULES = ['Big5LessSlow', 'Big5Fast0', 'Big5Fast1', 'Big5Fast2', 'Big5Fast3', 'ShiftJisLessSlow', 'ShiftJisFast', 'EucJpLessSlow',
+                      'EucJpFast', 'EucKrFast', 'GbLessSlowFalse', 'GbLessSlowTrue', 'GbFastFalse', 'GbFastTrue', 'IsoLessSlowAscii',
+                      'IsoLessSlowRoman', 'IsoLessSlowJis0208', 'IsoFastAscii', 'IsoFastRoman', 'IsoFastJis0208', 'L1JisSjis', 'L1JisEuc',
+                      'L1JisIso', 'L1Gb', 'L1Big5', 'KanjiSjisFast', 'KanjiSjisLessSlow', 'KanjiEucFast', 'KanjiEucLessSlow', 'KanjiIsoFast',
+                      'KanjiIsoLessSlow', 'KanjiMapped', 'KanjiMappedLessSlow', 'Hangul', 'Hanja', 'HanziFast', 'HanziLessSlow', 'Sorted']
+
+PROPS_EXTRA['C17'] = {
+ # the first module states the theorems; the Lemmas/C17/* modules hold one complete evaluation (native_decide) each and are
+ # listed so that their `…_check` theorems are audited (#print axioms) too
+ 'thm_modules': ['EncodingRs.Thm.C17'] + ['EncodingRs.Lemmas.C17.' + m for m in _C17_LEMMA_MODULES],
+ 'harness_cfgs': ['default', 'lessslow', 'fast', 'simd'],
+ # ./check: run the SAME corpus through every configuration (concurrently), each through the model driver, and require the
+ # operation files to be byte-identical (sha256 per operation kind in coverage.config_digests; first differing line => VIOLATION)
+ 'cross_config': True,
+ 'generated': ['Gen.TablesBig5Gated (BIG5_LEVEL1_HANZI_CODE_POINTS, BIG5_LEVEL1_HANZI_BYTES, BIG5_UNIFIED_IDEOGRAPH_BYTES)',
+               'Gen.TablesJisGated (JIS0208_LEVEL1_KANJI_CODE_POINTS, JIS0208_LEVEL1_KANJI_SHIFT_JIS_BYTES, JIS0208_KANJI_BYTES)',
+               'Gen.TablesKoreanGated (CP949_HANGUL_BYTES, KSX1001_UNIFIED_HANJA_BYTES, KSX1001_COMPATIBILITY_HANJA_BYTES)',
+               'Gen.TablesGbGated (GB2312_LEVEL1_HANZI_CODE_POINTS, GB2312_LEVEL1_HANZI_BYTES, GBK_HANZI_BYTES)',
+               'Gen.Tables{Big5,Jis,Korean,Gb,Misc} (default tables the gated variants are compared against)', 'Gen.Encodings', 'Gen.SingleByte'],
+ 'correspondences': ['cross-configuration: the operation files (calls + logical results + written prefixes) produced by the harness built with '
+                     'default features, less-slow-kanji/big5/gb-hanzi-encode, fast-legacy-encode and simd-accel+std (nightly) are byte-identical',
+                     'encchar / encchar16: every character of the corpus through every encoder from UTF-8 and from UTF-16, each configuration = '
+                     'Model.efamOfVariant (the ONE configuration-independent model)',
+                     'dec: every 0-, 1- and 2-byte string of the corpus through every decoder (both sinks) and the C02 histories, each configuration '
+                     'admissible for Model.Decoder', 'enc: the C04 encoder histories, each configuration admissible for Model.ecall',
+                     'valid / valid16 (incl. utf8 with verif_force_scalar_utf8 off and on), mem, cls / clschar / cls16: each configuration = the '
+                     'models of C14 / C15 / C16'],
+ 'rule': 'one deterministic corpus, identical for all configurations: (1) every scalar value (thorough) / a class set of ~6 400 scalar values '
+         '(quick: U+0000..U+04FF, every constant of the encoder bodies and gated lookups +-2, every 17th BMP code point, every 4099th astral one, '
+         '1 300 seeded ideographs / hangul / others) through every encoder (40) from UTF-8 and from UTF-16 (ISO-2022-JP also after U+00A5 and '
+         'U+3042; four lone surrogates per encoder); (2) every string of length 0, 1 and 2 over all 256 bytes (thorough) / over a 64-byte class '
+         'alphabet for length 2 (quick) through every decoder, both sinks; (3) 324 fixed buffers of 56..136 bytes (four filler widths, six defect '
+         'kinds) through utf8_valid_up_to with the scalar-validation switch off and on; (4) the generators of C14, C15, C16, C02, C04 with the '
+         'C17 seed. distinct = distinct operation lines summed over the four configurations; trivial = empty input',
+ 'trivial_re': '^(valid(16)? \\S+( \\S+)? \\S+ \\.|mem \\S+ \\d+ \\.|cls\\S* \\S+ \\.|dec \\S+ \\S+ \\S+ \\S+ \\. \\S+) => ',
+ 'trusted': ['native_decide (Lean compiler + interpreter/native evaluation) for the finite table obligations of Lemmas/C17/*.lean: 41 complete '
+             'evaluations over the 65 536 u16 values (or the index range of the caller) comparing the gated variant of a lookup / per-character '
+             'encode function with the default one; axiom names listed in the evidence',
+             'Model/DataEncGated.lean: hand models of the feature-gated variants as written (panics modelled as the impossible pair (256,256)); '
+             'tied to the code by the correspondence run of the lessslow and fast configurations',
+             'core::slice::binary_search returns Ok(i) with arr[i] = needle whenever the needle occurs in a strictly increasing array '
+             '(sortedness of the three code-point arrays is theorem gated_code_points_sorted)',
+             'cargo feature resolution of the harness crate: lessslow = less-slow-kanji-encode + less-slow-big5-hanzi-encode + '
+             'less-slow-gb-hanzi-encode, fast = fast-legacy-encode, simd = simd-accel + std on the nightly toolchain installed here',
+             'oracle failures of the borrowed generators (C14/C15/C16/C02/C04 oracles, e.g. findings F5 and the &mut str finding in the simd-accel '
+             'build) are NOT counted by this property: C17 is about identical logical results, not about their correctness'],
+ 'assumptions': ['core::simd lane semantics, multiversion run-time dispatch and CPU feature detection (AVX2/SSE4.2 on this machine) are runtime '
+                 'facts: not modelled, covered by the cross-configuration run only',
+                 'simdutf8 (external SIMD UTF-8 validator) is a parameter assumed correct whenever it answers (c17_validator_paths_agree_utf8)',
+                 'the model functions take Nat; the table theorems quantify over every u16 (the Rust parameter type) or every index the caller '
+                 'passes; the per-character theorems hold for every Nat, hence every char'],
+ 'partial': ['the simd-accel conversion kernels (ascii_to_ascii, basic_latin_to_ascii, pack/unpack, convert_*) are not modelled separately: '
+             'their agreement with the default build is established by the cross-configuration run (byte-identical mem/dec/enc lines); proved are '
+             'the stride-independence theorems re-exported as c17_validator_paths_agree_*',
+             'fast-hangul-encode / fast-hanja-encode enabled one without the other: lookup-level theorems only (ksx1001_encode_hangul_fast, '
+             'ksx1001_encode_hanja_fast); the combination of fast-legacy-encode is a per-character theorem (eucKr_fast_char)',
+             'targets other than x86_64 (NEON / wasm simd128 paths of simd_funcs.rs, utf_8.rs) are not built here']}
+
+MANIFEST_TEXT_EXTRA['C17'] = {
+ 'design_ref': 'DESIGN.md 4 C17',
+ 'technique': 'Lean 4 proof (complete evaluation of every feature-gated lookup and per-character encode function against the default one over '
+              'the regenerated tables; stride-independence theorems) + cross-configuration differential run (four builds, one model, '
+              'byte-identical operation files)',
+ 'text': 'Theorems (Thm/C17.lean): for every cargo-feature-gated variant in data.rs and the encoder modules, modelled as written over the gated '
+         'tables regenerated from /repo on every run, (a) lookup level: jis0208_level1_kanji_{shift_jis,euc_jp,iso_2022_jp}_encode_lessslow and '
+         'gb2312_level1_hanzi_encode_lessslow equal the default lookups for every u16 (incl. shift_jis_to_euc_jp / shift_jis_to_iso_2022_jp); '
+         'encode_kanji (three modules) and is_kanji_mapped, fast and less-slow, equal the default on every code point they are called with; '
+         'ksx1001_encode_hangul_fast, ksx1001_encode_hanja_fast, gb_encode_hanzi_fast / _lessslow likewise; big5_level1_hanzi_encode agrees '
+         'wherever both variants answer (the variants divide the work with big5_other_encode differently); code-point arrays strictly sorted, '
+         'direct tables exactly as long as their index ranges; (b) encoder level: the per-character function of Big5, EUC-KR, EUC-JP, '
+         'Shift_JIS, GBK, gb18030 and the ISO-2022-JP step in all three states, built from the less-slow / fast pieces, is the same function '
+         'as the default one for EVERY character (big5_lessslow_char, big5_fast_char, …, iso_fast_step), so the encoder families the other '
+         'theorems are about are the families of these builds (efam_*, estep_*). 41 complete evaluations by native_decide, nothing sampled. '
+         '(c) c17_validator_paths_agree_*: the validators / ASCII kernels return the same index for any stride plan (default vs simd-accel '
+         'shapes) and for the SIMD-validator vs scalar UTF-8 path. Cross-configuration run: the same deterministic corpus (every scalar x every '
+         'encoder x both sources, all 2-byte strings x every decoder, the C14/C15/C16/C02/C04 generators; ~3*10^6 lines quick, ~10^8 thorough) '
+         'is executed by harness binaries built with default, less-slow-*, fast-legacy-encode and simd-accel (nightly); each file is checked '
+         'against the one model and the four files must be byte-identical (digests in the evidence).',
+ 'note': 'Trusted: Lean kernel + native_decide for the finite table obligations; translator (default and gated tables); hand models of the '
+         'gated variants + correspondence run of each configuration; binary_search semantics. Assumed (run-time facts, covered by the '
+         'cross-configuration run only): core::simd lane semantics, multiversion dispatch, CPU feature detection, simdutf8. Oracle findings of '
+         'other properties in the simd-accel build (F5, &mut str validity) are not differences of logical results and are not counted here.'}
